@@ -154,6 +154,7 @@ const (
 	verifTickCliTimeout                // Ctx.fireTimeout has returned
 	verifTickCliCloseDone              // Conn.Close has closed c.done (and is about to write GOAWAY)
 	verifTickCliTimeoutResolved        // Ctx.fireTimeout has resolved the Ctx and is about to cancel the stream
+	verifTickSrvReqTimer               // server stream loop: the request timer has fired
 	verifTickCount
 )
 
@@ -175,6 +176,7 @@ const (
 	VerifTickCliTimeout         = verifTickCliTimeout
 	VerifTickCliCloseDone       = verifTickCliCloseDone
 	VerifTickCliTimeoutResolved = verifTickCliTimeoutResolved
+	VerifTickSrvReqTimer        = verifTickSrvReqTimer
 	VerifTickCount              = verifTickCount
 )
 
